@@ -203,12 +203,13 @@ Section FullQuote.
   Proof.
     apply (framed_quote_kept _ fp_all all_framed).
     - apply fp_quote_only_by_quote_b. vm_compute. reflexivity.
-    - intros f Hin p w s w' s' E. unfold full_table in Hin.
-      apply in_app_or in Hin as [Hin|Hin].
+    - intros f Hin p w s w' s' E. unfold full_table, base_table in Hin.
+      apply in_app_or in Hin as [Hin|Hin]; [apply in_app_or in Hin as [Hin|Hin]|].
       + unfold tbl_core, tbl_boolean, tbl_integer, tbl_float, tbl_name, tbl_code, tbl_exec, tbl_index, stack_family in Hin.
         cbn [app] in Hin.
         repeat (destruct Hin as [Hin|Hin]; [inversion Hin; subst; clear Hin|]); try contradiction.
         unfold pure, name_quote in E. cbn in E. inversion E. reflexivity.
+      + exfalso. revert Hin. apply not_in_keys. vm_compute. reflexivity.
       + exfalso. revert Hin. apply not_in_keys. vm_compute. reflexivity.
   Qed.
 End FullQuote.
